@@ -28,10 +28,10 @@ pub fn gen(rng: &mut Rng, tier: Tier, out: &mut Vec<String>) {
         let k = kind_words(kind);
         // reciprocal depths: w in [1, 10] (ratio up to 10:1), sometimes all equal
         let flat = rng.chance(1, 5);
-        // distant geometry: w in [1e2, 1e5] with a ratio up to 1.5 across the triangle, so that the
+        // distant geometry: w in [1e2, 1e8] with a ratio up to 1.5 across the triangle, so that the
         // per-pixel step of 1/w is below f32::EPSILON while 1/w still changes by tens of percent
         let distant = rng.chance(1, 6);
-        let w0 = if distant { 10f32.powf(rng.f32_in(2.0, 5.0)) } else { rng.f32_in(1.0, 10.0) };
+        let w0 = if distant { 10f32.powf(rng.f32_in(2.0, 8.0)) } else { rng.f32_in(1.0, 10.0) };
         let mut line = format!("frags {kind}");
         for q in p {
             let w = if flat { w0 } else if distant { w0 * rng.f32_in(1.0, 1.5) } else if rng.chance(1, 4) { *rng.pick(&[1.0f32, 2.0, 4.0, 8.0]) } else { rng.f32_in(1.0, 10.0) };
